@@ -382,3 +382,18 @@ class TcpSession(object):
             self.sock.close()
         except Exception:
             pass
+
+
+# ------------------------------------------------------------------------------------------------
+# per-process singletons (a server thread does not survive fork(); never reuse an inherited object)
+
+_PER_PROCESS = {}
+
+
+def per_process(key, factory):
+    import os
+    ent = _PER_PROCESS.get(key)
+    if ent is None or ent[0] != os.getpid():
+        TcpServer._started = False
+        ent = _PER_PROCESS[key] = (os.getpid(), factory())
+    return ent[1]
